@@ -29,7 +29,11 @@ func NewParams(schema *Schema, su SimpleURL, resType string) (*Params, error) {
 	// Remove duplicates and uncessary includes
 	for i := len(incs) - 1; i >= 0; i-- {
 		if i > 0 {
-			if strings.HasPrefix(incs[i], incs[i-1]) {
+			// A path is unnecessary when it is repeated or when the next
+			// one goes through the same relationships and further. The
+			// names of the relationships are compared, not the strings:
+			// "author" is not part of the path "authors".
+			if incs[i] == incs[i-1] || strings.HasPrefix(incs[i], incs[i-1]+".") {
 				incs = append(incs[:i-1], incs[i:]...)
 			}
 		}
